@@ -95,6 +95,12 @@ func TestVerifC11(t *testing.T) {
 				u2 := vfURL(c.url, w.Ref.Path, w.Ref.MPD, p.t2)
 				r1, r2 := vfGet(w.Srv, u1), vfGet(w.Srv, u2)
 				r.Eval(2)
+				if strings.Contains(c.url, "periods_") && r1.Code >= 400 && r2.Code >= 400 && len(r1.Body) > 0 && len(r2.Body) > 0 &&
+					strings.Contains(string(r1.Body), "not a multiple of segment duration") {
+					// this periods-per-hour value is refused for this asset (judged under C06): nothing to patch
+					r.Class(fmt.Sprintf("%s|%s|periods-value-refused", w.Ref.Path, c.tag))
+					break
+				}
 				if r1.Code != 200 || r2.Code != 200 {
 					sig := fmt.Sprintf("mpd-status-%d-%d:%s", r1.Code, r2.Code, c.tag)
 					if (r1.Code == 500 && len(r1.Body) == 0) || (r2.Code == 500 && len(r2.Body) == 0) {
